@@ -201,7 +201,17 @@ fn template(mut i: u64) -> Vec<Stmt> {
     prog
 }
 
-const RESIDUE_BODIES: [&str; 16] = [
+const RESIDUE_BODIES: [&str; 26] = [
+    "lijst[0] = als i % 2 == 0 { volgende } anders { 7 }",
+    "lijst[als i % 2 == 0 { volgende } anders { 0 }] = 5",
+    "x = lijst[als i % 2 == 0 { volgende } anders { 1 }]",
+    "lijst[1] = [i, als i % 2 == 0 { volgende } anders { 2 }]",
+    "print(\"a{}b{}\", 1, als i > 0 { volgende } anders { 2 })",
+    "x = lengte([1, als i > 0 { volgende } anders { 2 }])",
+    "x = id(1) + id(als i > 1 { stop } anders { 2 })",
+    "x = 1 - (2 * (3 + als i % 2 == 1 { volgende } anders { 4 }))",
+    "lijst[0] = zolang ja { stop }",
+    "x = [1, zolang ja { als ja { stop } }, 3][0]",
     "{}",
     "{ {} }",
     "als i % 2 == 0 { volgende }",
@@ -223,7 +233,7 @@ const RESIDUE_COUNTS: [u64; 6] = [0, 1, 2, 3, 1000, 70000];
 const TRAIL: &str = "functie som(a, b, c) { stel l = a + b; l + c } stel p = 11; stel q = 22; [som(p, q, 33), p, q, lengte([p, q]), id(5)]";
 
 fn residue_program(body: &str, n: u64, in_function: bool) -> String {
-    let core = format!("stel x = 0; stel i = 0; zolang i < {} {{ i += 1; {} }}; {}", n, body, TRAIL);
+    let core = format!("stel x = 0; stel lijst = [0, 0, 0]; stel i = 0; zolang i < {} {{ i += 1; {} }}; {}", n, body, TRAIL);
     if in_function {
         format!("functie id(v) {{ v }} functie proef() {{ {} }} proef()", core)
     } else {
@@ -257,6 +267,10 @@ pub fn c12_directed() -> Vec<(&'static str, String)> {
         ("zero-params-many-locals", "functie f() { stel a = 1; stel b = 2; stel c = 3; stel d = 4; [a, b, c, d] }; [f(), f()]".into()),
         ("four-params-four-locals", "functie f(a, b, c, d) { stel e = a + b; stel g = c + d; stel h = e * g; stel i = h - a; [a, b, c, d, e, g, h, i] } f(1, 2, 3, 4)".into()),
         ("early-return-from-loop-in-call", "functie zoek(lijst, doel) { stel i = 0; zolang i < lengte(lijst) { als lijst[i] == doel { antwoord i }; i += 1 }; -1 }; [zoek([5, 6, 7], 7), zoek([5, 6, 7], 8)]".into()),
+        ("procedure-result-null", "functie noteer(x) { stel kopie = x }; [1, noteer(5), 3, type(noteer(7))]".into()),
+        ("empty-body-with-params", "functie niets(a, b) { }; [niets(1, 2), type(niets(3, 4))]".into()),
+        ("procedure-in-initialiser", "functie zet(v) { stel w = v * 2 } stel r = zet(21); [r, type(r)]".into()),
+        ("procedure-with-locals-and-blocks", "functie p(a) { stel b = a + 1; { stel c = b + 1 }; stel d = b }; [p(1), 7, p(2)]".into()),
         ("result-discarded", "functie f() { [1, 2, 3] } f(); f(); 5".into()),
         ("call-in-condition", "functie waar() { ja } functie tel(n) { n + 1 } als waar() { tel(1) } anders { tel(2) }".into()),
         ("call-in-loop-condition", "stel n = 0; functie minder(a) { a < 3 } zolang minder(n) { n += 1 }; n".into()),
@@ -403,6 +417,26 @@ impl Flow {
     }
 }
 
+/// stack-height inconsistencies in the bytecode the real compiler emits for `text` (None: none, or not compilable)
+fn bytecode_residue(text: &str) -> Option<crate::bcv::Finding> {
+    use nederlang::compiler::Compiler;
+    thread_local! {
+        static TABLE: crate::bcv::Table = crate::bcv::Table::load();
+    }
+    let ast = nederlang::parser::parse(text).ok()?;
+    let code = Compiler::new().compile_ast(&ast).ok()?;
+    let rep = TABLE.with(|t| crate::bcv::check(&code.instructions, &code.constants, code.entry, t));
+    for c in &code.constants {
+        if c.is_heap_allocated() {
+            c.free();
+        }
+    }
+    if !rep.breaches.is_empty() || !rep.inconclusive.is_empty() {
+        return None; // C02's business
+    }
+    rep.residue.into_iter().next()
+}
+
 fn trailing(o: &Obs) -> String {
     format!("{} / {:?}", o.outcome.render(), o.output)
 }
@@ -440,8 +474,12 @@ impl Check for Flow {
                 let body = RESIDUE_BODIES[(i / 2) as usize];
                 let in_fn = i % 2 == 1;
                 st.set_insert("residue-templates", &format!("{}|{}", body, if in_fn { "function" } else { "top level" }));
-                // (a) heights at the loop head, from the trace of a 3-iteration run
+                // (a) heights at the loop head, from the trace of a 3-iteration run, and on all paths of the bytecode
                 if ctx.flavour == Flavour::Rel {
+                    if let Some(f) = bytecode_residue(&text) {
+                        st.violation(&format!("residue:bytecode-residue:{}", body), f.detail, &text);
+                        return;
+                    }
                     if let Some(d) = self.loop_head_heights(&text, st) {
                         st.violation(&format!("residue:loop-head-height:{}", body), d, &text);
                         return;
@@ -491,6 +529,15 @@ impl Check for Flow {
                 }
             }
             _ => {
+                // no path through the emitted bytecode may reach a point with a different stack height than another
+                // path: that is a slot left behind (or taken) by an early exit. The offline checker of C02 computes it.
+                if ctx.flavour == Flavour::Rel {
+                    if let Some(f) = bytecode_residue(&text) {
+                        st.violation(&format!("{}:bytecode-residue:{}", fam, f.class), f.detail, &text);
+                        return;
+                    }
+                    st.count("bytecode-residue-checks");
+                }
                 let d = differential(&text, &cfg, 400_000, st);
                 match d.verdict {
                     Verdict::Agree { nontrivial } => {
